@@ -97,9 +97,11 @@ CLAIMED["C08"] = dict(
 CLAIMED["C09"] = dict(
     text="Proof (Lean 4): the pending-signal slot after any sequence of signalling transitions excludes x exactly when all came from x (however many) and is All once two distinct machines signalled; the delivery round visits every machine "
          "except a lone signaller exactly once in index order and the lone signaller once afterwards iff the round raised a new signal; counted on the model's ghost copy of the hook log, no machine receives more than one Signal per call "
-         "and processing reported events delivers none. The implementation is tied to this by the correspondence of the internal log and by the monitor from the property text.",
+         "and processing reported events delivers none. Exactness over a whole call (C09_call_delivers, C09_call_delivers_log, C09_call_deliveries; any machines, oracle, batch): with the signalling transitions read off the ghost log, "
+         "no signaller: nobody receives a Signal; two distinct signallers: every machine exactly one; a lone signaller x: every other machine exactly one and x one iff the round's deliveries were answered by a signal, else none - also in the monitor's own "
+         "vocabulary (deliveries to machines that have not ended). The implementation is tied to this by the correspondence of the internal log and by the monitor from the property text.",
     ref="5 (C09)",
-    technique="Lean 4 theorems on the signal slot algebra and the unfolding of the delivery round + spec monitor on the implementation's internal log + differential correspondence",
+    technique="Lean 4 theorems on the signal slot algebra, the unfolding of the delivery round and exact counting of deliveries on the ghost log over whole calls + spec monitor on the implementation's internal log + differential correspondence",
 )
 CLAIMED["C10"] = dict(
     text="Proof (Lean 4), full statement by simulation: for ANY two machine sets holding the same machine m at positions i and k (the solo run is the special case [m], 0), any history and the same history with ids renamed (i to k, neighbours to other or unknown ids), "
